@@ -62,6 +62,9 @@ func vThreadFrame(panicText string) string {
 }
 
 // schedExplore runs the DFS for one scenario with the deviation bound iterated 0..bound.
+// schedShard, when set, splits one scenario's search over the workers: the subtrees below the root execution are dealt out.
+var schedShard func(k int) bool
+
 func schedExplore(res *vResult, prop string, scenario any, scName string, bound int, maxExec int64, run schedRunFn) schedStats {
 	st := schedStats{Outcomes: map[string]int{}}
 	type item struct {
@@ -77,6 +80,7 @@ func schedExplore(res *vResult, prop string, scenario any, scName string, bound 
 			continue
 		}
 		stack := []item{{nil, nil, 0}}
+		rootKids := 0
 		for len(stack) > 0 {
 			if st.Executions >= maxExec || res.expired() {
 				st.Truncated = true
@@ -121,6 +125,12 @@ func schedExplore(res *vResult, prop string, scenario any, scName string, bound 
 								np[j], ns[j] = s.Trace[j].Taken, s.Trace[j].Sig
 							}
 							np[i], ns[i] = alt, cp.Sig
+							if it.prefix == nil && schedShard != nil {
+								rootKids++
+								if !schedShard(rootKids) {
+									continue
+								}
+							}
 							stack = append(stack, item{np, ns, cost + cp.Costs[alt]})
 						}
 					}
